@@ -508,4 +508,7 @@ def run(ctx):
     ]
     from ..rules import pC20
     rules.append(pC20.rule_let_order(ctx, select=lambda qn: qn.startswith('IterationTransform.'), rid='C14-LET', floor=4))
+    from ..rules import sC14, sC21
+    rules.append(sC14.rule_header(ctx))
+    rules.append(sC21.rule_loopvar(ctx, rid='C14-LOOPVAR'))
     return rules
